@@ -209,4 +209,9 @@ NoStray == \A i \in 1..Len(out) : out[i].k # "stray"
 DoOnce == \A t \in Targets : Cardinality({i \in 1..Len(out) : out[i].k = "do" /\ Norm[out[i].t] = t}) <= 1
 \* the follower does not get stuck while the build is over
 FollowerEnds == (BuildOver /\ ~fdone) => ENABLED (FStart \/ FRead)
+
+\* What the follower relies on: a log it has opened only ever grows.  (A new build of the same target does not
+\* rewrite that file: builder.rs replaces .redo/log.<id> by a new file, atomically, before the job starts; a reader
+\* of the previous build's log keeps its complete, unchanged file.  Bound to the code by logcheck.append_only_part.)
+AppendOnly == [][\A t \in Targets : Len(logs'[t]) >= Len(logs[t]) /\ SubSeq(logs'[t], 1, Len(logs[t])) = logs[t]]_vars
 =============================================================================
